@@ -99,7 +99,11 @@ def faulty(detector, **kw):
     if hit:
         with _LOCK:
             LOG[-1]["raised"] = True
-        raise make_exc(f["cls"], f["token"])
+        exc = make_exc(f["cls"], f["token"])
+        if f.get("own_note"):
+            # a model may annotate its own error (PEP 678), as pyxel's load_image does for a missing file
+            exc.add_note("note attached by the failing model itself")
+        raise exc
     if kw.get("image"):
         detector.image.array = np.full(detector.geometry.shape, 3, dtype=np.uint16)
     if kw.get("pixel"):
@@ -212,7 +216,8 @@ def pipeline_shard(rec, spec):
             for (g, m) in models:
                 cls = names[ci % len(names)]
                 ci += 1
-                point = {"model": m, "step": step, "cls": cls, "k": None, "token": f"boom-{g}-{m}-{step}-{ci}"}
+                point = {"model": m, "step": step, "cls": cls, "k": None, "token": f"boom-{g}-{m}-{step}-{ci}",
+                         "own_note": ci % 2 == 0}
                 rec.count("fault_points_planned")
                 reset(point)
                 exc, ret = None, None
@@ -244,7 +249,8 @@ def pipeline_shard(rec, spec):
                         pool = PICKLABLE if exec_mode.endswith("processes") else names
                         cls = pool[ci % len(pool)]
                         ci += 1
-                        point = {"model": m, "step": step, "cls": cls, "k": k, "token": f"boom-{m}-{step}-{int(k)}-{ci}"}
+                        point = {"model": m, "step": step, "cls": cls, "k": k, "token": f"boom-{m}-{step}-{int(k)}-{ci}",
+                                 "own_note": (ci // 3) % 2 == 0}
                         rec.count("fault_points_planned")
                         reset(point)
                         dask_on = exec_mode != "obs_seq"
@@ -303,7 +309,7 @@ def calibration_shard(rec, spec):
         n_eval = rng.randint(1, pop * islands) if phase == "initial" else rng.randint(pop * islands + 1, pop * islands * 2)
         cls = names[(spec["shard"] + i) % len(names)]
         g, m = "charge_collection", "cal_f"
-        point = {"eval": n_eval, "cls": cls, "token": f"boom-cal-{n_eval}-{i}", "step": 0}
+        point = {"eval": n_eval, "cls": cls, "token": f"boom-cal-{n_eval}-{i}", "step": 0, "own_note": i % 3 == 0}
         pspec = {g: [{"name": m, "func": "vf.checks.c09.faulty",
                       "arguments": {"a": 1.0, "k": 0, "pixel": True, "count_eval": True}}]}
         cal = Calibration(
